@@ -643,7 +643,14 @@ class BaseOrchestrator(ABC):
         """
         while missing_invocations > 0:
             if invocation_id := self.app.broker.retrieve_invocation():
-                invocation_status = self.get_invocation_status(invocation_id)
+                try:
+                    invocation_status = self.get_invocation_status(invocation_id)
+                except KeyError:
+                    # leftover message of an invocation that was purged meanwhile
+                    self.app.logger.warning(
+                        f"Dropping queued message of unknown invocation:{invocation_id}"
+                    )
+                    continue
                 # A message for an invocation already claimed in this poll through the
                 # blocking-priority path is a leftover duplicate, unless the invocation has
                 # meanwhile been released and queued again (e.g. it failed and awaits a retry)
